@@ -33,6 +33,10 @@ namespace awkward {
     /// @brief Append an integer value `x`.
     virtual void
       integer(int64_t x) = 0;
+    /// @brief Append an unsigned integer value `x` (values above the
+    /// int64_t range cannot be passed through #integer).
+    virtual void
+      uinteger(uint64_t x) = 0;
     /// @brief Append a real value `x`.
     virtual void
       real(double x) = 0;
@@ -102,6 +106,8 @@ namespace awkward {
     void
       integer(int64_t x) override;
     void
+      uinteger(uint64_t x) override;
+    void
       real(double x) override;
     void
       complex(std::complex<double> x) override;
@@ -165,6 +171,8 @@ namespace awkward {
       boolean(bool x) override;
     void
       integer(int64_t x) override;
+    void
+      uinteger(uint64_t x) override;
     void
       real(double x) override;
     void
@@ -234,6 +242,8 @@ namespace awkward {
     void
       integer(int64_t x) override;
     void
+      uinteger(uint64_t x) override;
+    void
       real(double x) override;
     void
       complex(std::complex<double> x) override;
@@ -298,6 +308,8 @@ namespace awkward {
       boolean(bool x) override;
     void
       integer(int64_t x) override;
+    void
+      uinteger(uint64_t x) override;
     void
       real(double x) override;
     void
